@@ -6,6 +6,7 @@
 //!
 //! usage: cexec <cases.ndjson> <out.ndjson> [schema.json for dynamic flavour]
 use async_graphql::{Request, Response};
+use async_graphql::futures_util::StreamExt;
 use serde_json::{Value as J, json};
 use vh::io::*;
 use vh::{doc, dynfam, exec, fam, resp, world::Req};
@@ -66,13 +67,20 @@ fn main() {
         let flavour = case["flavour"].as_str().unwrap_or("static").to_string();
         let result: Result<Result<Response, String>, String> = exec::catch(|| {
             let with_ext = case["ext"].as_bool().unwrap_or(false);
+            let stream = case["stream"].as_bool().unwrap_or(false);
             if flavour == "static" {
                 let schema = if with_ext { &static_schema_ext } else { &static_schema };
-                exec::run_gated(Box::pin(schema.execute(request)), &req_data, &schedule)
+                if stream {
+                    // the entry point the WebSocket / multipart transports use: first item of execute_stream
+                    exec::run_gated(Box::pin(async move { let mut s = Box::pin(schema.execute_stream(request)); s.next().await.expect("execute_stream ended without a response") }), &req_data, &schedule)
+                } else {
+                    exec::run_gated(Box::pin(schema.execute(request)), &req_data, &schedule)
+                }
             } else {
                 let ts = if case["ts"].is_object() { case["ts"].clone() } else { dyn_default.clone().unwrap_or(J::Null) };
                 let built = if with_ext { dynfam::builder(&ts).and_then(|b| b.extension(Noop).finish().map_err(|e| e.to_string())) } else { dynfam::build(&ts) };
                 match built {
+                    Ok(schema) if stream => exec::run_gated(Box::pin(async { let mut s = Box::pin(schema.execute_stream(request)); s.next().await.expect("execute_stream ended without a response") }), &req_data, &schedule),
                     Ok(schema) => exec::run_gated(Box::pin(schema.execute(request)), &req_data, &schedule),
                     Err(e) => Err(format!("dynamic schema build failed: {e}")),
                 }
